@@ -820,6 +820,14 @@ def dotdot_layouts(res, tier):
             res.violation("depfile-cli:unreported:dotdot:" + shape, {"layout": k, "missing": sorted(want - got), "listed": sorted(got)})
         elif got - want:
             res.violation("depfile-cli:not-read:dotdot:" + shape, {"layout": k, "extra": sorted(got - want)})
+        else:
+            # the same files; are they also named the way clang opened them?  The property compares files
+            # (realpath-normalised), so a different spelling is reported as drift only, never as a violation.
+            spelled_c = {os.path.normpath(os.path.join(d, x)) for x in read_clang_depfile(open(os.path.join(d, "clang.d")).read())}
+            spelled_b = {os.path.normpath(os.path.join(d, x)) for x in deps}
+            if spelled_c != spelled_b:
+                res.drift.append("dotdot layout %s: same files as clang -M but under other names: %s vs %s" %
+                                 (shape, sorted(spelled_b - spelled_c)[:3], sorted(spelled_c - spelled_b)[:3]))
         n += 1
     # forced includes named the way build systems name them: resolved through the search path, not the working
     # directory.  (That a forced include is missing from the list is the recorded finding clang-arg-include; what is
